@@ -25,6 +25,7 @@ ENCODING_ASSUMPTIONS = [
     'bit operators: shifts are exact (x*2**k, x div 2**k); &,|,^ are uninterpreted except x & (2**k-1) == x mod 2**k (CPython fact) and lemmas proved separately',
     'repository type annotations (plus sidecar declare_fields) are input type invariants',
     'print/click.echo/__str__/f-string rendering are total and effect-free',
+    "f'{b:02x}' is a deterministic function of the integer b and has two characters for 0 <= b < 256 (CPython's format; used for the listing's rows)",
     'class hierarchy is closed-world (all classes of /repo/src/bespokeasm parsed this run)',
 ]
 
